@@ -680,7 +680,7 @@ func TestSingleEditsExhaustive(t *testing.T) {
 func TestRandomScripts(t *testing.T) {
 	gen := func(rt *rapid.T) c08Case {
 		plain := rapid.IntRange(0, 3).Draw(rt, "plain") == 0
-		bits := rapid.SampledFrom([]int{1024, 1024, 1024, 1536, 2048}).Draw(rt, "bits")
+		bits := rapid.SampledFrom([]int{1024, 1024, 1024, 1024, 1280, 1536, 1536, 1792, 2048}).Draw(rt, "bits")
 		if !vh.Thorough() && bits == 2048 && rapid.IntRange(0, 3).Draw(rt, "skip2048") != 0 {
 			bits = 1024
 		}
